@@ -689,6 +689,20 @@ Section Coh.
       + intro Hnd. apply I4. rewrite ps_ol_rem by reflexivity. apply ps_nodup_filter_map. exact Hnd.
   Qed.
 
+  (* the observe-record removals touch another file than the two last renames of a DELETE *)
+  Lemma ps_abs_obs_deletes_swap : forall name l A,
+    ps_abs_calls (map (fun s => CObsDeleted (pss_key s)) l ++ [CDynDeleted name; CCntDeleted name]) A =
+    ps_abs_calls (map (fun s => CObsDeleted (pss_key s)) l)
+                 (ps_abs_calls [CDynDeleted name; CCntDeleted name] A).
+  Proof.
+    intros name. induction l as [|s l IH]; intro A; cbn [map List.app]; [reflexivity|].
+    change (ps_abs_calls (CObsDeleted (pss_key s) ::
+              map (fun s0 => CObsDeleted (pss_key s0)) l ++ [CDynDeleted name; CCntDeleted name]) A)
+      with (ps_abs_calls (map (fun s0 => CObsDeleted (pss_key s0)) l ++ [CDynDeleted name; CCntDeleted name])
+              (ps_abs_call (CObsDeleted (pss_key s)) A)).
+    rewrite IH. reflexivity.
+  Qed.
+
   Lemma ps_insub_remove : forall name m n s,
     NoDup (map psr_name m) -> (ps_insub (ps_remove name m) n s <-> n <> name /\ ps_insub m n s).
   Proof.
@@ -716,20 +730,20 @@ Section Coh.
     { unfold ps_del_value. destruct (ps_del_bump r); [|exact Hrange].
       rewrite ps_next_observe_ok by lia. lia. }
     assert (Hcw : Forall (ps_call_wf (psc_la c) (psc_lt c))
-                    (pre ++ CCntDeleted name :: CDynDeleted name :: dels)).
+                    (pre ++ dels ++ [CDynDeleted name; CCntDeleted name])).
     { apply Forall_app. split.
       - subst pre. destruct (ps_del_bump r && (ps_del_value r mod psc_freq c =? 0)); [|constructor].
         constructor; [|constructor]. apply (ps_track_wf m A G name r Hi Hf). exact Hval.
-      - constructor; [exact I|]. constructor; [exact I|]. subst dels.
+      - apply Forall_app. split; [|constructor; [exact I|]; constructor; [exact I|constructor]]. subst dels.
         apply Forall_forall. intros x Hx. apply in_map_iff in Hx. destruct Hx as (s & <- & _). exact I. }
     split; [exact Hcw|].
     assert (HA : ps_abs_wf (psc_la c) (psc_lt c)
-                   (ps_abs_calls (pre ++ CCntDeleted name :: CDynDeleted name :: dels) A)).
+                   (ps_abs_calls (pre ++ dels ++ [CDynDeleted name; CCntDeleted name]) A)).
     { apply (ps_abs_calls_wf (fun _ _ => 0) c); [apply (iv_wf _ _ _ Hi)|exact Hcw]. }
-    (* the files after the counter / dynamic-resource part *)
-    set (A1 := ps_abs_calls (pre ++ [CCntDeleted name; CDynDeleted name]) A).
-    assert (EA : ps_abs_calls (pre ++ CCntDeleted name :: CDynDeleted name :: dels) A = ps_abs_calls dels A1).
-    { subst A1. rewrite <- ps_abs_calls_app, <- app_assoc. reflexivity. }
+    (* the files after the counter / dynamic-resource part (another file than the observe records) *)
+    set (A1 := ps_abs_calls (pre ++ [CDynDeleted name; CCntDeleted name]) A).
+    assert (EA : ps_abs_calls (pre ++ dels ++ [CDynDeleted name; CCntDeleted name]) A = ps_abs_calls dels A1).
+    { subst A1 dels. rewrite !ps_abs_calls_app. rewrite <- ps_abs_calls_app. apply ps_abs_obs_deletes_swap. }
     assert (H1o : ab_obs A1 = ab_obs A).
     { subst A1 pre. destruct (ps_del_bump r && (ps_del_value r mod psc_freq c =? 0)); reflexivity. }
     assert (H1d : ps_ol (ab_dyn A1) = ps_dyn_without name (ps_ol (ab_dyn A))).
